@@ -21,6 +21,8 @@ Record deviations := {
   d_comp_leak_on_exc : bool;   (* D104 ast_listcomp/...: loop variables not restored when the comprehension raises *)
   d_set_late_hash : bool;      (* D105 ast_set: elements hashed only after all of them (also those after a *iterable) are evaluated *)
   (* internal: a difference from CPython that no builtin value can observe (hence no finding), modelled for the tie *)
+  d_fstr_conv_early : bool;    (* I2   ast_formattedvalue: the conversion (!r !s !a) is applied before the format spec is
+                                       evaluated (CPython evaluates the spec expressions first) *)
   d_unpack_drain : bool        (* I1   recurse_assign: vals = [*(iter(val))] (iter() twice, iterator drained before the
                                        length check, any exception turned into TypeError) *)
 }.
@@ -29,7 +31,7 @@ Definition no_deviations : deviations :=
   {| d_dict_value_first := false; d_call_kw_first := false; d_compare_reeval := false; d_aug_target_twice := false;
      d_fstring_conv := false; d_list_target := false; d_del_attr_state := false; d_aug_not_inplace := false;
      d_uadd_identity := false; d_dict_eager_insert := false; d_kw_dup_silent := false; d_comp_leak_on_exc := false;
-     d_set_late_hash := false; d_unpack_drain := false |}.
+     d_set_late_hash := false; d_fstr_conv_early := false; d_unpack_drain := false |}.
 
 Definition all_off (c : deviations) : Prop := c = no_deviations.
 
@@ -311,11 +313,14 @@ Section Ps.
       | EJoinedStr parts => ps_joined parts []
       | EFormattedValue v c spec =>                                         (* ast_formattedvalue *)
           bind (ev v) (fun val =>
-            bind (if d_fstring_conv cfg then ret val else do_conv c val) (fun val' =>
-            match spec with
-            | Some sp => bind (ev sp) (fun fmt => do_format val' fmt)
-            | None => do_format val' VEmptyStr
-            end))
+            if d_fstr_conv_early cfg
+            then bind (if d_fstring_conv cfg then ret val else do_conv c val) (fun val' =>
+                 match spec with
+                 | Some sp => bind (ev sp) (fun fmt => do_format val' fmt)
+                 | None => do_format val' VEmptyStr
+                 end)
+            else bind (match spec with Some sp => ev sp | None => ret VEmptyStr end) (fun fmt =>
+                 bind (if d_fstring_conv cfg then ret val else do_conv c val) (fun val' => do_format val' fmt)))
       end.
 
     (* ---------------- recurse_assign ---------------- *)
